@@ -18,6 +18,7 @@ import (
 	"github.com/bytemare/secp256k1"
 	"github.com/bytemare/secp256k1/verifharness/endcore"
 	"github.com/bytemare/secp256k1/verifharness/gen"
+	_ "github.com/bytemare/secp256k1/verifharness/pt" // registers the cold-start exercise
 	"github.com/bytemare/secp256k1/verifharness/ref"
 )
 
